@@ -106,6 +106,13 @@ class Skip(Exception):
     """path outside the harness domain (treated like an infeasible path)"""
 
 
+class BodyStop(Exception):
+    """the library raised where the harness did not expect it: the claim 'no-unexpected-exception' has been recorded as failed, the rest of the body cannot run"""
+
+
+UNEXPECTED = 'no-unexpected-exception'
+
+
 # ----------------------------------------------------------------- contexts
 class _BaseCtx:
     mode = None
@@ -126,12 +133,13 @@ class _BaseCtx:
 
     def raises(self, fn, *a, **k):
         """-> exception type name or None (result stored in self.last)"""
+        self._expecting = getattr(self, '_expecting', 0) + 1
         try:
             self.last = fn(*a, **k)
             return None
         except sc.Inconclusive:
             raise
-        except Skip:
+        except (Skip, BodyStop):
             raise
         except wire.RemoteError as e:
             self.last = None
@@ -139,6 +147,13 @@ class _BaseCtx:
         except Exception as e:
             self.last = None
             return type(e).__name__
+        finally:
+            self._expecting -= 1
+
+    def _unexpected(self, target, exc_name, msg):
+        """every library call not wrapped in ctx.raises carries the implicit claim that it returns"""
+        self.check(UNEXPECTED, False, info={'target': target, 'exception': exc_name, 'message': str(msg)[:300]})
+        raise BodyStop()
 
 
 class SymCtx(_BaseCtx):
@@ -222,7 +237,14 @@ class SymCtx(_BaseCtx):
         f = m
         for part in fname.split('.'):
             f = getattr(f, part)
-        return f(*args, **kwargs)
+        if getattr(self, '_expecting', 0):
+            return f(*args, **kwargs)
+        try:
+            return f(*args, **kwargs)
+        except (sc.Inconclusive, Skip, BodyStop):
+            raise
+        except Exception as e:
+            self._unexpected(target, type(e).__name__, e)
 
     # ---- claims
     def close(self, a, b, tol=None):
@@ -421,7 +443,12 @@ class ConcCtx(_BaseCtx):
 
     def call(self, target, *args, **kwargs):
         modname, fname = target.split(':')
-        ret, after = wire.worker().call('xrspatial.' + modname, fname, list(args), kwargs)
+        try:
+            ret, after = wire.worker().call('xrspatial.' + modname, fname, list(args), kwargs)
+        except wire.RemoteError as e:
+            if getattr(self, '_expecting', 0):
+                raise
+            self._unexpected(target, e.exc, e)
         # propagate in-place mutation of array arguments back to the caller's objects
         for a, b in zip(args, after):
             _copy_back(a, b)
@@ -540,7 +567,14 @@ class ShimConcCtx(ConcCtx):
         f = m
         for part in fname.split('.'):
             f = getattr(f, part)
-        return f(*args, **kwargs)
+        if getattr(self, '_expecting', 0):
+            return f(*args, **kwargs)
+        try:
+            return f(*args, **kwargs)
+        except (sc.Inconclusive, Skip, BodyStop):
+            raise
+        except Exception as e:
+            self._unexpected(target, type(e).__name__, e)
 
 
 def _copy_back(a, b):
@@ -593,6 +627,8 @@ def run_task(task):
         except Skip:
             skipped[0] += 1
             raise sc.PathAbort()
+        except BodyStop:
+            pass
         if ctx.nchecks and len(res['samples']) < want_samples and (rnd.random() < 0.3 or not res['samples']):
             try:
                 m = ex.ensure_model()
@@ -656,6 +692,8 @@ def replay_concrete(prop, job, inputs, shim=False):
         status = 'ran'
     except Skip:
         status = 'skipped'
+    except BodyStop:
+        status = 'ran (library raised)'
     except wire.RemoteError as e:
         status = 'remote-exception %s' % e
     finally:
@@ -792,6 +830,9 @@ def run_check(prop_id, tier='quick', seed=0, budget_s=None, procs=None, replay_s
                             stop = True
                     else:
                         unconfirmed.append(dict(cex, replay_status=status + ' / all %d concrete checks passed' % cctx.passed))
+                        if cex['label'] == UNEXPECTED:
+                            # the engine raised where the real build does not: a fault of the shims, never a pass
+                            errors.append({'job': t['job'], 'error': 'HARNESS engine raised %s, the real code does not: %s' % (json.dumps(cex['info'])[:400], json.dumps(cex['inputs'])[:300])})
                 if r['remaining']:
                     if time.time() - t0 > budget_s:
                         js['partial'] = True
@@ -837,14 +878,14 @@ def run_check(prop_id, tier='quick', seed=0, budget_s=None, procs=None, replay_s
             except Exception as e:
                 errors.append({'job': s['job'], 'error': 'sample replay crashed: %s: %s' % (type(e).__name__, e)})
                 continue
-            if status != 'ran':
+            if not status.startswith('ran'):
                 continue
             n, bad = _cmp_observed(s['observed'], cctx.observed)
             # the same concrete inputs through the shimmed source: every observed cell must agree with the real build
             try:
                 sc.EX = None
                 sctx, sstatus = replay_concrete(prop, s['job'], s['inputs'], shim=True)
-                if sstatus == 'ran':
+                if sstatus.startswith('ran'):
                     n2, bad2 = _cmp_observed({k: _jsonable(v) for k, v in sctx.observed.items()}, cctx.observed)
                     n += n2
                     bad += bad2
